@@ -179,9 +179,44 @@ def enclosing_function(node):
     return enclosing(node, FUNC)
 
 
+_STMT_START = ('if ', 'elif ', 'return ', 'for ', 'async for ', 'while ', 'await ', 'del ', 'raise ', 'assert ', 'with ', 'async with ')
+
+
+class NormStr(str):
+    """Normalised text of a node.  `needle in NormStr` is a plain substring test for expression fragments, but a needle
+    that reads as a whole statement (an assignment, or one starting with a statement keyword) must match from the start
+    of a statement to the end of one: `x = a + b` does not match inside `x = a + b + c` nor inside `yx = a + b`."""
+    __slots__ = ('_starts', '_ends')
+
+    def __new__(cls, lines):
+        pieces = [' '.join(ln.split()) for ln in lines]
+        pieces = [x for x in pieces if x]
+        self = super().__new__(cls, ' '.join(pieces))
+        starts, ends, off = set(), set(), 0
+        for x in pieces:
+            starts.add(off)
+            ends.add(off + len(x))
+            off += len(x) + 1
+        self._starts, self._ends = starts, ends
+        return self
+
+    def __contains__(self, needle):
+        if not isinstance(needle, str):
+            return str.__contains__(self, needle)
+        whole = (' = ' in needle and not needle.endswith(('(', '[', '.', ',', ' '))) or needle.startswith(('return ', 'raise ', 'await ')) or (needle.startswith(_STMT_START) and needle.endswith(':'))
+        if not whole:
+            return str.__contains__(self, needle)
+        i = str.find(self, needle)
+        while i >= 0:
+            if i in self._starts and (i + len(needle)) in self._ends:
+                return True
+            i = str.find(self, needle, i + 1)
+        return False
+
+
 def norm(node) -> str:
     """Normalised statement text (key material independent of layout)."""
-    return ' '.join(text(node).split())
+    return NormStr(text(node).split('\n'))
 
 
 # --------------------------------------------------------------------------
